@@ -51,7 +51,7 @@ def generate(rng, tier):
         for combo in itertools.product(ALPHA, repeat=L):
             toks.append(b"".join(combo))
     toks += BOUND
-    nrand = 4000 if tier == "quick" else 150000
+    nrand = 4000 if tier == "quick" else 40000
     for _ in range(nrand):
         toks.append(b"".join(rng.choice(ALPHA) for _ in range(rng.randint(maxlen + 1, 9))))
     for t in toks:
